@@ -265,6 +265,14 @@ def get_cauchy_point(
         # Fix one variable and reset the corresponding component of d to zero.
         p += g_b * W_b
         d[ibp] = 0
+        if not d.any():
+            # every variable is now fixed or has a zero gradient: the projected path
+            # ends at this breakpoint (as in the Fortran code). f_prime, f_second and p
+            # are pure round-off from here on and must not be used to move further.
+            delta_t_min = 0.0
+            t_old = copy.copy(t_cur)
+            t_cur = np.inf
+            break
         delta_t_min = -f_prime / f_second
         t_old = copy.copy(t_cur)
 
